@@ -130,6 +130,17 @@ CLAIMED = {
         "Tolerances scale with smooth and the condition number (measured margins >= 50x); undocumented edges listed in ASSUMPTIONS are not asserted; the default smoothing value is not part of the property.",
         "DESIGN.md section 3, C14",
     ),
+    "C02": (
+        "Hypothesis-generated expression trees differentiated by the harness's own forward-mode (dual number) evaluator vs aldi and systemize(); captured steady/stacked-time Jacobians vs Richardson-extrapolated central differences",
+        "Random expression trees (depth<=4) over arithmetic, powers, log/exp/sqrt/logistic/maximum, user context functions and a 'risky' class of "
+        "functions that may be rejected, with drawn log-status, are embedded in 1-3 equation models; at a drawn non-steady data point every "
+        "residual value and every derivative row of aldi's eval_to_arrays (chain rule for log-variables, shock + anticipated shock) must equal the "
+        "harness's dual-number result, and at drawn steady levels every cell of systemize()'s A, B, D, F, G, J must sit in the row/column of its "
+        "equation/token. The steady-state (flat and non-flat) and stacked-time (terminal first_order/data) evaluators are captured by wrapping the "
+        "solver entry points in the harness process and their Jacobians compared with extrapolated central differences at drawn points.",
+        "Kinks and out-of-domain points are excluded; rejection (an exception) is allowed for the listed functions; tolerance 1e-9 (analytic), 1e-5 (context functions), 1e-6 (finite differences).",
+        "DESIGN.md section 3, C02",
+    ),
 }
 
 NOT_BUILT_REASON = "check not built yet in this round (design in DESIGN.md section 3); not claimed until it is quiet on the unchanged tree and kills its mutants"
